@@ -8,6 +8,8 @@ use quickcheck::{Arbitrary, Gen};
 
 impl<const BITS: usize, const LIMBS: usize> Arbitrary for Uint<BITS, LIMBS> {
     fn arbitrary(g: &mut Gen) -> Self {
+        #[cfg(feature = "recmo_uint_verif")]
+        crate::verif_hooks::hit(44);
         let mut limbs = [0; LIMBS];
         if let Some((last, rest)) = limbs.split_last_mut() {
             for limb in rest {
